@@ -53,14 +53,14 @@ def h_tags_reading(ctx):
 
 
 def harnesses(tier):
-    from props import C02_resolve
+    from props import C02_resolve, C02_engine_tags
     return [
         Harness('match[first_match]', _h('first_match'), [MATCH]),
         Harness('match[most_specific]', _h('most_specific'), [MATCH]),
         Harness('lemma.tags_reading', h_tags_reading, []),
         Harness('lemma.first_is_least', C01.h_first_is_least, []),
         Harness('lemma.sel_argmax', mc.h_sel_lemmas, []),
-    ] + C02_resolve.harnesses(tier)
+    ] + C02_resolve.harnesses(tier) + C02_engine_tags.harnesses(tier)
 
 
 ORACLES = [
